@@ -1,2 +1,7 @@
 """C17 -- see DESIGN.md section 3/C17."""
-from bounded.bC17 import run as bounded  # noqa: F401
+
+
+def bounded(tier, seed, info):
+    from bounded.bC17 import run
+    from bounded.bHist import run_constant_histories
+    return run(tier, seed, info) + run_constant_histories('C17', tier, seed)
